@@ -1,3 +1,4 @@
-// throw-away object (cloned and destructed by the fuzz programs)
+// throw-away object (cloned, moved and destructed by the generated programs)
 void create () { }
 int query () { return 1; }
+void move_here (object dest) { move_object (dest); }
